@@ -137,7 +137,13 @@ func (e *connEnd) Write(p []byte) (int, error) {
 	// connection's reader is parked in Read with nothing to read, and nothing is delivered to
 	// that reader while a writer is blocked (see actions()).
 	if s.sndWindow > 0 && e.inst != nil && e.side == 'b' && !e.c.hidden {
-		for pe.inflightN >= s.sndWindow && e.readWaiting > 0 && len(e.rbuf) == 0 && !e.eofDelivered &&
+		// (the leader's log streamer starts its connection's reader goroutine right before it
+		// writes and shares no mutex with it: it may block before that reader has parked)
+		streamer := false
+		if pe.inflightN >= s.sndWindow && e.readWaiting == 0 {
+			streamer = roleOfCaller() == "liveaof"
+		}
+		for pe.inflightN >= s.sndWindow && ((e.readWaiting > 0 && len(e.rbuf) == 0) || streamer) && !e.eofDelivered &&
 			!e.closed && !e.reset && !pe.closed && !pe.reset {
 			s.stats["net.writes_blocked_on_window"]++
 			e.wblocked++
